@@ -149,6 +149,14 @@ func (e *Env) Emit(op string, obs string) {
 	e.mu.Unlock()
 }
 
+// FlushNow writes the buffered protocol lines out (engines whose cases can crash the process call it per case).
+func (e *Env) FlushNow() {
+	e.mu.Lock()
+	e.ops.Flush()
+	e.impl.Flush()
+	e.mu.Unlock()
+}
+
 func (e *Env) Count(k string) { e.park(); e.Dist[k]++ }
 
 func (e *Env) Sample(v any) {
